@@ -79,6 +79,13 @@ def main():
         print("ODDICT-REJECT", r.why, str(r.event)[:300], r.state[:300])
     print(f"dictionary container: {val.traces} traces, {val.events} events, {len(val.rejects)} rejected")
     bad += len(val.rejects)
+    cases = [{"seed": rng.randrange(1 << 30), "n": 80, "scope": ["rec", "arr"][i % 2]} for i in range(120)]
+    res = run_cases("harness.drv_oddict:run_members", cases, jobs=8, timeout=120)
+    val = tlc.validate_traces("Trace_OdDict", res, cfg="Trace.cfg", jobs=4)
+    for r in val.rejects[:10]:
+        print("ODDICT-MEMBERS-REJECT", r.why, str(r.event)[:300], r.state[:300])
+    print(f"record / array member containers: {val.traces} traces, {val.events} events, {len(val.rejects)} rejected")
+    bad += len(val.rejects)
     return 1 if bad else 0
 
 
